@@ -4,8 +4,9 @@
   findDoublespace, findAmountEnd, parsePosting, determineTagContext,
   generateCompletionItems (labels only), extractAccountPrefix, getAccountsForPrefix,
   extractCurrentTagName, calculateTextEditRange, findCommodityStart, extractQueryText,
+  accountQueryStart, payeeQueryStart, tagNameQueryStart,
   fuzzyMatchScore, fuzzyMatchScoreBySegments, filterAndScoreFuzzyMatch, filterByPrefix),
-  of the lookup side of internal/analyzer/indexer.go (AccountIndex.All / ByPrefix) and of
+  of the lookup side of internal/analyzer/indexer.go (AccountIndex.All) and of
   the completion.maxResults normalisation in internal/server/settings.go.
 
   Scope.  The symbol table (names with usage counts, the by-prefix index) is computed by the
@@ -23,13 +24,21 @@
   the driver instantiates it with `HL.Completion.goLower` (ASCII exact plus an explicit table
   for the non-ASCII letters the generators use).
 
-  `sort.Slice` is unstable: the ranking is modelled by the relation `IsRanking` (a sorted
-  permutation); `rankExec` (insertion sort) is one executable instance.
+  `sort.SliceStable` is modelled by `rankExec` (a stable insertion sort, see
+  `HL.Props.C16.rankExec_stable`); most theorems hold for every sorted permutation
+  (`IsRanking`), of which `rankExec` is one.
 
-  `fx : Bool` selects the code as pinned (`false`) or with repo_patches/fix-completion-edit-range.diff
-  applied (`true`): `calculateTextEditRange` looks at the text before the cursor only (as
-  `extractQueryText` does), a header line without a blank before the cursor gets an empty range,
-  and the payee query skips status marks exactly as the payee range does.
+  The model describes the code WITH the completion repairs (repo_patches/fix-completion-*.diff):
+  the edit range and the query are cut at the same place (`accountQueryStart`,
+  `payeeQueryStart`, `tagNameQueryStart`, `findCommodityStart` on the text before the cursor);
+  status marks, the bracket of a virtual posting and a transaction code are not part of the
+  fragment; tag names are filtered by the fragment typed in the comment and replace it; every
+  line that starts with a blank or a tab is a posting line; account candidates are narrowed by
+  a case-insensitive scan of all accounts (the by-prefix index of the analyzer is no longer
+  consulted); a trailing colon of the query is matched by the colon that follows a segment; the
+  status mark of a posting is skipped with the indent before the account separator is sought.
+  The code before these repairs is kept in HL/Model/CompletionPinned.lean (namespace
+  `HL.Completion.Pinned`) for the kernel-checked `pinned_*_counterexample` theorems.
 -/
 import HL.Model.Text
 namespace HL.Completion
@@ -130,9 +139,12 @@ structure Parts where
   amountEnd : Nat
 deriving Repr, DecidableEq
 
+/-- Indent and status mark in front of a posting's account (`strings.TrimLeft(line, " \t*!")`). -/
+def isPostingLead (c : Char) : Bool := c == ' ' || c == '\t' || c == '*' || c == '!'
+
 /-- `parsePosting` (the fields the completion code reads). -/
 def parsePosting (line : Str) : Parts :=
-  let trimmed := trimLeftP isBlankTab line
+  let trimmed := trimLeftP isPostingLead line
   let indent := line.length - trimmed.length
   match findDoublespace trimmed with
   | none => ⟨indent, none, 0, 0⟩
@@ -185,7 +197,7 @@ def determineContext (line : Str) (ch : Nat) (trig : Str) : Ctx :=
   if hasPrefix line directiveAccount then .account else
   if hasPrefix line directiveCommodity then .commodity else
   if hasPrefix line directiveApplyAccount then .account else
-  if hasPrefix line fourBlanks || hasPrefix line ['\t'] then determinePostingContext line col else
+  if hasPrefix line [' '] || hasPrefix line ['\t'] then determinePostingContext line col else
   match line with
   | c :: _ => if isDigit c then .payee else .date
   | [] => .date
@@ -219,22 +231,12 @@ def countOf (counts : Option (List (Str × Nat))) (l : Str) : Nat :=
   | none => 0
   | some m => (m.lookup l).getD 0
 
-/-- `extractAccountPrefix`. -/
-def extractAccountPrefix (line : Str) (col : Nat) : Str :=
-  let before := trimSpace (line.take col)
-  match lastIndexP (· == ':') before with
-  | none => []
-  | some lastColon =>
-    match lastIndexP isBlankTab (before.take lastColon) with
-    | none => before.take (lastColon + 1)
-    | some start => (before.take (lastColon + 1)).drop (start + 1)
-
-/-- `getAccountsForPrefix`. -/
-def accountsForPrefix (t : Table) (pre : Str) : List Str :=
+/-- `getAccountsForPrefix`: the accounts that start with the typed parent in any letter case;
+    all accounts when there is no parent or no such account. -/
+def accountsForPrefix (lower : Char → Char) (t : Table) (pre : Str) : List Str :=
   if pre = [] then t.accounts else
-  match t.byPrefix.lookup pre with
-  | some l => l
-  | none => t.accounts
+  let narrowed := t.accounts.filter fun a => (pre.map lower).isPrefixOf (a.map lower)
+  if narrowed = [] then t.accounts else narrowed
 
 /-- `extractCurrentTagName`. -/
 def extractCurrentTagName (line : Str) (col : Nat) : Str :=
@@ -254,17 +256,6 @@ def extractCurrentTagName (line : Str) (col : Nat) : Str :=
         | some k => k + 1
       trimSpace ((before.take lastColon).drop start)
 
-/-- The labels of `generateCompletionItems`, in order (dates excepted). -/
-def labelsFor (t : Table) (c : Ctx) (line : Str) (col : Nat) : List Str :=
-  match c with
-  | .account => accountsForPrefix t (extractAccountPrefix line col)
-  | .payee => t.payees
-  | .commodity => t.commodities
-  | .tagName => t.tags
-  | .tagValue => (t.tagValues.lookup (extractCurrentTagName line col)).getD []
-  | .date => []
-  | .unknown => t.accounts
-
 /-! ### Query and edit range -/
 
 /-- `strings.CutPrefix`. -/
@@ -274,7 +265,7 @@ def isPayeeSkip (c : Char) : Bool := c == ' ' || c == '*' || c == '!'
 
 /-- The commodity fragment of a posting prefix `s` (text before the cursor): `(start, text)`. -/
 def commodityQuery (before : Str) : Str :=
-  let trimmed := trimLeftP isBlankTab before
+  let trimmed := trimLeftP isPostingLead before
   match findDoublespace trimmed with
   | none => []
   | some k =>
@@ -282,20 +273,52 @@ def commodityQuery (before : Str) : Str :=
     let e := findAmountEnd afterAccount
     if e ≥ afterAccount.length then [] else trimLeftP isBlank (afterAccount.drop e)
 
+def isAccountSkip (c : Char) : Bool := c == ' ' || c == '\t' || c == '*' || c == '!' || c == '(' || c == '['
+
+/-- `accountQueryStart` on the text before the cursor: where the account name being typed starts
+    (char index; the Go function computes `len(beforeCursor) - len(rest)` for a suffix `rest`). -/
+def accountQueryStart (before : Str) : Nat :=
+  if hasPrefix before directiveAccount then directiveAccount.length
+  else if hasPrefix before directiveApplyAccount then directiveApplyAccount.length
+  else before.length - (trimLeftP isAccountSkip before).length
+
+/-- The part of `payeeQueryStart` after the status marks: a closed transaction code and the blanks
+    behind it are skipped. -/
+def skipCode (rest : Str) : Str :=
+  match rest with
+  | '(' :: _ =>
+    match indexOf ')' rest with
+    | some e => trimLeftP isBlank (rest.drop (e + 1))
+    | none => rest
+  | _ => rest
+
+/-- `payeeQueryStart`. -/
+def payeeQueryStart (before : Str) : Nat :=
+  match indexOf ' ' before with
+  | none => before.length
+  | some k => before.length - (skipCode (trimLeftP isPayeeSkip (before.drop (k + 1)))).length
+
+/-- Where the comment part that holds the tag name being typed starts: after the semicolon or
+    the last comma behind it. -/
+def tagPartStart (before : Str) : Nat :=
+  let start := match indexOf ';' before with
+    | some k => k + 1
+    | none => 0
+  match lastIndexP (· == ',') before with
+  | some c => if c ≥ start then c + 1 else start
+  | none => start
+
+/-- `tagNameQueryStart`. -/
+def tagNameQueryStart (before : Str) : Nat :=
+  before.length - (trimLeftP isBlankTab (before.drop (tagPartStart before))).length
+
 /-- `extractQueryText` on the cursor's line. -/
-def extractQuery (fx : Bool) (c : Ctx) (line : Str) (col : Nat) : Str :=
+def extractQuery (c : Ctx) (line : Str) (col : Nat) : Str :=
   let before := line.take col
   match c with
-  | .account =>
-    match cutPrefix before directiveAccount with
-    | some a => a
-    | none => match cutPrefix before directiveApplyAccount with
-      | some a => a
-      | none => trimLeftP isBlankTab before
-  | .payee =>
-    match indexOf ' ' before with
-    | none => []
-    | some k => trimLeftP (if fx then isPayeeSkip else isBlank) (before.drop (k + 1))
+  | .account => before.drop (accountQueryStart before)
+  | .payee => before.drop (payeeQueryStart before)
+  | .tagName => before.drop (tagNameQueryStart before)
   | .commodity =>
     match cutPrefix before directiveCommodity with
     | some a => a
@@ -312,27 +335,39 @@ def findCommodityStart (line : Str) (col : Nat) : Nat :=
     cs + ((line.drop cs).takeWhile isBlank).length
 
 /-- Start (char index) of the range of `calculateTextEditRange`; `none` = nil range. -/
-def editStart (fx : Bool) (c : Ctx) (line : Str) (col : Nat) : Option Nat :=
+def editStart (c : Ctx) (line : Str) (col : Nat) : Option Nat :=
   let before := line.take col
-  let ref := if fx then before else line
   match c with
-  | .account =>
-    if hasPrefix ref directiveAccount then some directiveAccount.length
-    else if hasPrefix ref directiveApplyAccount then some directiveApplyAccount.length
-    else some (col - (trimLeftP isBlankTab before).length)
+  | .account => some (accountQueryStart before)
+  | .payee => some (payeeQueryStart before)
+  | .tagName => some (tagNameQueryStart before)
   | .commodity =>
-    if hasPrefix ref directiveCommodity then some directiveCommodity.length
-    else some (findCommodityStart ref col)
-  | .payee =>
-    match indexOf ' ' before with
-    | none => some (if fx then col else 0)
-    | some k => some (k + 1 + ((before.drop (k + 1)).takeWhile isPayeeSkip).length)
+    if hasPrefix before directiveCommodity then some directiveCommodity.length
+    else some (findCommodityStart before col)
   | _ => none
 
 /-- `calculateTextEditRange`: `(start, end)` in UTF-16 units on the cursor's line; the end is the
     request position as sent. -/
-def editRange (fx : Bool) (c : Ctx) (line : Str) (ch : Nat) : Option (Nat × Nat) :=
-  (editStart fx c line (takeU16 line ch)).map fun s => (u16len (line.take s), ch)
+def editRange (c : Ctx) (line : Str) (ch : Nat) : Option (Nat × Nat) :=
+  (editStart c line (takeU16 line ch)).map fun s => (u16len (line.take s), ch)
+
+/-- `extractAccountPrefix`: the typed fragment up to its last colon. -/
+def extractAccountPrefix (line : Str) (col : Nat) : Str :=
+  let q := extractQuery .account line col
+  match lastIndexP (· == ':') q with
+  | none => []
+  | some k => q.take (k + 1)
+
+/-- The labels of `generateCompletionItems`, in order (dates excepted). -/
+def labelsFor (lower : Char → Char) (t : Table) (c : Ctx) (line : Str) (col : Nat) : List Str :=
+  match c with
+  | .account => accountsForPrefix lower t (extractAccountPrefix line col)
+  | .payee => t.payees
+  | .commodity => t.commodities
+  | .tagName => t.tags
+  | .tagValue => (t.tagValues.lookup (extractCurrentTagName line col)).getD []
+  | .date => []
+  | .unknown => t.accounts
 
 /-! ### Matching and scoring -/
 
@@ -372,9 +407,13 @@ deriving Repr, DecidableEq, Inhabited
 def filterByPrefix (lower : Char → Char) (items : List Str) (q : Str) : List Scored :=
   (items.filter fun l => (q.map lower).isPrefixOf (l.map lower)).map fun l => ⟨l, fuzzyScoreEmptyPattern⟩
 
-/-- The score the fuzzy branch of `filterAndScoreFuzzyMatch` gives one label (0 = dropped). -/
+/-- The score the fuzzy branch of `filterAndScoreFuzzyMatch` gives one label (0 = dropped).
+    A trailing colon of the query is dropped for the per-segment match, and then only the segments
+    that are followed by a colon (all but the last) are considered. -/
 def fuzzyItemScore (lower : Char → Char) (q : Str) (l : Str) : Nat :=
-  let s1 := if ':' ∈ l then fuzzyScoreBySegments lower l (trimColon q) else 0
+  let s1 := match lastIndexP (· == ':') l with
+    | none => 0
+    | some k => fuzzyScoreBySegments lower (if q.getLast? = some ':' then l.take k else l) (trimColon q)
   if s1 > 0 then s1 else fuzzyScore lower l q
 
 /-- `filterAndScoreFuzzyMatch`. -/
@@ -392,7 +431,7 @@ def less (counts : Option (List (Str × Nat))) (a b : Scored) : Bool :=
   if a.score ≠ b.score then a.score > b.score
   else countOf counts a.label > countOf counts b.label
 
-/-- What `sort.Slice` guarantees: a permutation no later element of which must precede an
+/-- What every correct sort guarantees: a permutation no later element of which must precede an
     earlier one. -/
 def IsRanking (counts : Option (List (Str × Nat))) (input out : List Scored) : Prop :=
   out.Perm input ∧ out.Pairwise fun a b => less counts b a = false
@@ -428,21 +467,21 @@ structure Result where
 deriving Repr, Inhabited
 
 /-- The filtered, scored, not yet ranked items of a request. -/
-def scoredFor (lower : Char → Char) (fx : Bool) (t : Table) (st : Settings) (line : Str) (ch : Nat) (trig : Str) : List Scored :=
+def scoredFor (lower : Char → Char) (t : Table) (st : Settings) (line : Str) (ch : Nat) (trig : Str) : List Scored :=
   let c := determineContext line ch trig
   let col := takeU16 line ch
-  filterAndScore lower (labelsFor t c line col) (extractQuery fx c line col) st.fuzzy
+  filterAndScore lower (labelsFor lower t c line col) (extractQuery c line col) st.fuzzy
 
-/-- `Completion`, given the ranking `ranked` produced by `sort.Slice`. -/
-def finish (fx : Bool) (st : Settings) (line : Str) (ch : Nat) (trig : Str) (ranked : List Scored) : Result :=
+/-- `Completion`, given the ranking `ranked` of the scored items. -/
+def finish (st : Settings) (line : Str) (ch : Nat) (trig : Str) (ranked : List Scored) : Result :=
   let c := determineContext line ch trig
-  { ctx := c, query := extractQuery fx c line (takeU16 line ch), range := editRange fx c line ch,
+  { ctx := c, query := extractQuery c line (takeU16 line ch), range := editRange c line ch,
     items := truncate (normMax st.maxRaw) ranked }
 
-/-- `Completion` with the executable ranking. -/
-def complete (lower : Char → Char) (fx : Bool) (t : Table) (st : Settings) (line : Str) (ch : Nat) (trig : Str) : Result :=
+/-- `Completion` (`sort.SliceStable` = `rankExec`). -/
+def complete (lower : Char → Char) (t : Table) (st : Settings) (line : Str) (ch : Nat) (trig : Str) : Result :=
   let c := determineContext line ch trig
-  finish fx st line ch trig (rankExec (countsFor t c) (scoredFor lower fx t st line ch trig))
+  finish st line ch trig (rankExec (countsFor t c) (scoredFor lower t st line ch trig))
 
 /-- The text a client puts in place of the range: `InsertText` (tag names) or the label. -/
 def newText (c : Ctx) (l : Str) : Str := if c = .tagName then l ++ [':'] else l
